@@ -73,6 +73,9 @@ func main() {
 			}
 		}()
 		c.fn(cx)
+		if n := externalKills.Load(); n > 0 {
+			run.Incon(fmt.Sprintf("%d peg processes were killed from outside (SIGKILL not sent by this check: the kernel's OOM killer under other workloads?)", n))
+		}
 		code = run.Finish()
 	}()
 	os.Exit(code)
